@@ -183,6 +183,8 @@ def same(ty, a, b):
     if ty == "Log":
         fa = _f(a)
         fb = _f(b)
+        if math.isnan(fa) or math.isnan(fb):
+            return False
         if math.isinf(fa) or math.isinf(fb):
             return fa == fb
         return abs(fa - fb) <= 1e-9 * max(1.0, abs(fa), abs(fb))
